@@ -59,3 +59,7 @@ chk("C20","exploration",
  "every command of a result-shape alphabet is answered by the same storage state through the JSON, Arrow and text renderers (real response writer); the three byte streams are decoded independently (serde_json, arrow_ipc, a line parser) and compared: status, column names, row count, every cell, announced row count; over layouts and response batch sizes",
  "only results the engine itself produces (no hand-built column batches); exact-case known findings in known/C20.*.json",
  "bounded exhaustive enumeration of result shapes with a three-way differential oracle over independent decoders","unitx+histx","DESIGN.md §3 C20")
+chk("C16","exploration",
+ "instants (incl. before 1970 and at the digit-count boundaries of the unit heuristic) x spellings (epoch s/ms/us/ns as numbers and strings, float seconds, RFC 3339 with four offsets and fractional seconds) x four sites (STORE payload, SINCE USING, WHERE literal under all six operators, PER bucket under five granularities) x timezone / week-start configurations x {memory, flushed}; the stored value must be the instant's epoch second, and each literal / bucket is judged against the values the system itself returns",
+ "independent integer calendar arithmetic; flushed layout restricted to a narrow cluster of instants (the temporal index builder does not cope with spans of decades); exact-case known findings in known/C16.*.json",
+ "bounded exhaustive input enumeration against an independent reference of instant arithmetic","unitx+histx","DESIGN.md §3 C16")
